@@ -41,6 +41,17 @@ def run(ctx):
     for a in need:
         if mc.coverage.get(a, (0, 0))[0] == 0:
             raise InfraError("vacuous model: action %s never fired" % a)
+    # overlapping cycles / a retry with a stale candidate list: the list is worked through twice before reconciliation
+    mco = ctx.tlc("tiering", "Tiering", "MC_overlap.cfg", coverage=True, timeout=900, workers=4)
+    for a in ("SecondPass", "CopyNoSource"):
+        if mco.coverage.get(a, (0, 0))[0] == 0:
+            raise InfraError("vacuous model: action %s never fired" % a)
+    mco2 = ctx.tlc("tiering", "Tiering", "MC_overlap2.cfg", timeout=900, workers=4, allow_violation=True)
+    ctx.note("tlc_model_check_overlap", {
+        "cfg": "MC_overlap.cfg", "distinct": mco.distinct, "generated": mco.generated, "depth": mco.depth,
+        "two_faults": {"cfg": "MC_overlap2.cfg", "violated": mco2.violated,
+                       "note": "candidate only (source-delete failure, then UpdateTier failure in the second pass: the rollback "
+                               "deletes the cold copy the row points to); not replayed, see docs/asbuilt/C12.md"}})
     ctx.note("tlc_model_check", {"cfg": cfg, "distinct": mc.distinct, "generated": mc.generated, "depth": mc.depth,
                                  "invariants": ["Readable", "ExactlyOnce", "NeverInvisible", "SourceKeptUntilMetaCold", "MetaColdImpliesColdCopy", "Settles"],
                                  "actions_fired": {k: v[0] for k, v in mc.coverage.items()}})
@@ -54,13 +65,18 @@ def run(ctx):
     doubles = sorted((t for t in g2.traces if nfaults(t) > 1), key=key)
     ctx.note("tlc_generation", {"cfg": "Gen_large.cfg", "distinct": g2.distinct, "generated": g2.generated, "behaviours": len(g2.traces)})
     # every 2-fault placement is model-checked; the replay takes a seeded sample of them (a child process,
-    # a byte comparison and a DuckDB query per cycle): 40 in quick, 350 in thorough (VERIF_C12_DOUBLES=all for all)
-    want = os.environ.get("VERIF_C12_DOUBLES", "40" if ctx.quick() else "350")
+    # a byte comparison and a DuckDB query per cycle): 20 in quick, 350 in thorough (VERIF_C12_DOUBLES=all for all)
+    want = os.environ.get("VERIF_C12_DOUBLES", "20" if ctx.quick() else "350")
     rnd = random.Random(ctx.seed)
     pick = doubles if want == "all" else rnd.sample(doubles, min(int(want), len(doubles)))
-    scs = singles + pick
-    ctx.note("behaviours", {"<=1 fault": len(singles), "2 faults": len(doubles), "2 faults replayed": len(pick)})
-    ctx.log("replaying %d behaviours (%d with <=1 fault, %d of %d with 2 faults)" % (len(scs), len(singles), len(pick), len(doubles)))
+    g3 = ctx.tlc("tiering", "Tiering", "Gen_overlap.cfg", timeout=900, workers=2)
+    if not g3.traces:
+        raise InfraError("overlap generator emitted nothing")
+    overlap = sorted(g3.traces, key=key)
+    scs = singles + overlap + pick
+    ctx.note("behaviours", {"<=1 fault": len(singles), "<=1 fault, candidate list worked twice": len(overlap), "2 faults": len(doubles), "2 faults replayed": len(pick)})
+    ctx.log("replaying %d behaviours (%d with <=1 fault, %d with <=1 fault and a second pass, %d of %d with 2 faults)"
+            % (len(scs), len(singles), len(overlap), len(pick), len(doubles)))
     sp = ctx.path("scenarios.json")
     json.dump(scs, open(sp, "w"))
     binp, childp = builds.result()
